@@ -7,6 +7,7 @@ import TFV.Generated.Src.find_id_args_from_i
 import TFV.Generated.Src.find_first_difference_between_two
 import TFV.Model.Tree
 import TFV.Lemmas.Src.TreeIdx
+import TFV.Properties.Tree
 
 namespace TFV.SrcTie
 open TFV.Generated.Src TFV.Tree
@@ -27,5 +28,19 @@ theorem C09_src_find_id_args (pre post : Flat) (t : RT) :
 theorem C09_src_first_difference (a b : List Nat) (ha : a ≠ []) (hb : b ≠ []) :
     find_first_difference_between_two (a.map Int.ofNat) (b.map Int.ofNat) = some ((firstDiff a b : Nat) : Int) :=
   src_first_difference a b ha hb
+
+/-! ### the property statements of TFV/Properties/Tree.lean, re-stated on the translated kernels -/
+
+/-- the translated `find_end_subtree_from_i` returns the index one past the subterm, for every
+    subterm position of every well-formed tree, without any out-of-range access -/
+theorem C09_src_find_end_subtree_size (pre post : Flat) (t : RT) :
+    find_end_subtree_from_i (pre.length : Int) (arI (pre ++ flat t ++ post)) = some ((pre.length + t.size : Nat) : Int) := by
+  rw [C09_src_find_end_subtree, C09_endSub]
+
+/-- the translated `find_id_args_from_i` returns the root positions of the argument subterms -/
+theorem C09_src_find_id_args_positions (pre post : Flat) (s : Nat) (ks : List RT) :
+    find_id_args_from_i (pre.length : Int) (arI (pre ++ flat (.node s ks) ++ post)) =
+      some (((List.range ks.length).map fun c => pre.length + 1 + sizeL (ks.take c)).map Int.ofNat) := by
+  rw [C09_src_find_id_args, C09_argsIds]
 
 end TFV.SrcTie
